@@ -1,15 +1,9 @@
-use fe2o3_amqp_types::messaging::{Body, Message, message::__private::{Deserializable, Serializable}};
-use serde_amqp::Value;
+use serde_amqp::lazy::LazyValue;
 fn main() {
-    for hex in ["5375", "53755375", "53755377", "005375a00161", "5375a00161", "53775375", "5372", "53705375"] {
+    for hex in ["40", "a10568656c6c6f", "c0050243405201", "005375a00161", "5201"] {
         let b = vcheck::refcodec::unhex(hex);
-        let r: Result<Deserializable<Message<Body<Value>>>, _> = serde_amqp::from_slice(&b);
-        match r {
-            Ok(m) => {
-                let e = serde_amqp::to_vec(&Serializable(&m.0)).map(|v| vcheck::refcodec::hex(&v));
-                println!("{hex}: Ok body={:?} reenc={:?}", m.0.body, e);
-            }
-            Err(e) => println!("{hex}: Err {e}"),
-        }
+        let s: Result<LazyValue, _> = serde_amqp::from_slice(&b);
+        let r: Result<LazyValue, _> = serde_amqp::from_reader(&b[..]);
+        println!("{hex}: slice={:?} reader={:?}", s.map(|v| vcheck::refcodec::hex(v.as_slice())), r.map(|v| vcheck::refcodec::hex(v.as_slice())).map_err(|e| e.to_string()));
     }
 }
